@@ -7,7 +7,7 @@ from __future__ import annotations
 import random
 
 from vf import monitors, norm
-from vf.common import exps_workload, std_shards, gsig, try_compile, prog_from_json
+from vf.common import exps_workload, std_shards, gsig, try_compile, prog_from_json, with_repeated_literals
 from vf.esast import print_program, Style
 
 LEVEL = "exploration"
@@ -104,7 +104,10 @@ def check(acc, prog, sseed, lseed, mode, name, sample=False):
                 acc.violation(gsig("listing-differs-from-compiled-parameter"), {"name": m.name}, inp)
                 return
     # edit clause
-    cands = [m for m in marks if len(cm.get(m.name, [])) == 1]
+    listed = {}
+    for m in marks:
+        listed[m.name] = listed.get(m.name, 0) + 1
+    cands = [m for m in marks if len(cm.get(m.name, [])) == 1 and listed[m.name] == 1]
     if not cands:
         return
     rnd = random.Random(lseed ^ 0x18)
@@ -112,7 +115,10 @@ def check(acc, prog, sseed, lseed, mode, name, sample=False):
     from explorerscript.ssb_converting.ssb_data_types import SsbOpParamPositionMarker
 
     # the edited mark may also get another name (an editor lets the user rename it): quotes, blanks and line breaks included
-    new_name = m.name + rnd.choice(["", "", "_e", " e d", "'s", ' "q"', "\nline2", "\n line2\n", "\t"])
+    new_name = m.name + rnd.choice(["", "", "_e", " e d", "'s", ' "q"', "\nline2", "\n line2\n", "\t",
+                                     # an even number of backslashes before a single quote (an odd number, and backslashes
+                                     # before a double quote, do not survive on the unchanged tree: finding K01)
+                                     "C:\\\\'s", "\\\\\\\\'"])
     edited = SsbOpParamPositionMarker(new_name, 2 - m.x_offset if m.x_offset in (0, 2) else 0, m.y_offset, m.x_relative + 7, m.y_relative)
     lines = r.text.split("\n")
     # absolute indices of the span
@@ -155,6 +161,11 @@ def run_shard(shard, acc):
     for i, (name, prog) in enumerate(exps_workload(shard)):
         for mode in (0, 1, 2):
             check(acc, prog, rnd.randrange(1 << 40), rnd.randrange(1 << 40), mode, name, sample=(i == 1 and mode == 0))
+        # the same mark written at several places (identical literal text when no style varies the spelling)
+        prog2 = with_repeated_literals(prog, rnd)
+        acc.count("programs_with_repeated_literals")
+        for mode in (1, 0):
+            check(acc, prog2, rnd.randrange(1 << 40), rnd.randrange(1 << 40), mode, name + ":repeated")
 
 
 def summarize(agg, tier):
